@@ -270,6 +270,8 @@ def c12(tier, seed):
         {'line': 'mkdir d .hid d/.hs; touch d/x d/.h .hid/x d/.hs/x; ./pargs */*/x', 'files': pop, 'expect_stdout': _argv(['*/*/x']), 'area': 'expand_glob:hidden-directory'},
         {'line': 'mkdir d .hid; touch d/x .hid/x .hid/y; ./pargs .hid/* .h*/y', 'files': pop, 'expect_stdout': _argv(['.hid/x', '.hid/y', '.hid/y']), 'area': 'expand_glob:hidden-directory:spelled-out'},
         {'line': 'mkdir d; touch d/.only; ./pargs L d/* R', 'files': pop, 'expect_stdout': _argv(['L', 'd/*', 'R']), 'area': 'expand_glob:only-hidden-matches'},
+        # text around a range is kept whatever script it is written in
+        {'line': './pargs é{1..3}z año{-1..1}.txt 日本{3..1} x{1..2}ü', 'files': pop, 'expect_stdout': _argv(['é1z', 'é2z', 'é3z', 'año-1.txt', 'año0.txt', 'año1.txt', '日本3', '日本2', '日本1', 'x1ü', 'x2ü']), 'area': 'expand_range:multi-byte-text-around-it'},
         # unmatched `{` around a group: they stay as they are, the group inside is expanded -- and it takes no time
         {'line': './pargs ' + '{' * 30 + 'a,b} {a,{b} {a{,b} x{{a,b},c}y {a,b}{ {{{a,b},c}', 'files': pop,
          'expect_stdout': _argv(['{' * 29 + 'a', '{' * 29 + 'b', '{a,{b}', '{a', '{ab', 'xay', 'xby', 'xcy', 'a{', 'b{', '{a', '{b', '{c']), 'timeout': 5, 'area': 'expand_brace:unmatched-nesting'},
@@ -733,6 +735,9 @@ def c02(tier, seed):
         {'line': 'echo b | cat | echo c', 'expect_stdout': 'c\n', 'area': 'pipeline:builtin-last'},
         {'line': 'echo b | cat', 'expect_stdout': 'b\n', 'area': 'pipeline:builtin-first'},
         {'line': 'echo x > n; echo a | sh -c "echo 1 >> n; cat" | cat; cat n', 'expect_stdout': 'a\nx\n1\n', 'area': 'pipeline:each-stage-once'},
+        # a quoted or escaped `&` as the last word is an argument: the pipeline is still waited for and reports the last stage's status
+        {'line': "./slow | tr -d '&'; echo \"rc=$?\"; sh -c 'sleep 0.2; exit 7' | ./st last \\&; echo \"rc=$?\"", 'files': {'st': '#!/bin/sh\ncat >/dev/null; echo \"$1 $2\"; exit 9\n', 'slow': "#!/bin/sh\nsleep 0.3; echo 'a&b'; echo c\n"},
+         'expect_stdout': 'ab\nc\nrc=0\nlast &\nrc=9\n', 'timeout': 8, 'area': 'pipeline:quoted-ampersand-as-the-last-word'},
         # KNOWN FINDING (recorded, not repaired): a here-string larger than two pipe buffers in a stage that is not the last (the shell writes it before the next stage exists)
         {'line': 'cat <<< "$(head -c 300000 /dev/zero | tr \\0 a)" | wc -c', 'expect_stdout': '300001\n', 'timeout': 4, 'area': 'pipeline:here-string-larger-than-the-pipes-in-a-non-last-stage'},
     ]
